@@ -187,7 +187,12 @@ func (f *ruleFactory) createExecutePipeline(
 					"an authenticator is defined after some other non authenticator type")
 			}
 
-			authenticator, err := f.hf.CreateAuthenticator(version, id.(string), getConfig(pipelineStep["config"]))
+			mechanismID, mechanismConfig, err := getIDAndConfig("authenticator", id, pipelineStep["config"])
+			if err != nil {
+				return nil, nil, nil, err
+			}
+
+			authenticator, err := f.hf.CreateAuthenticator(version, mechanismID, mechanismConfig)
 			if err != nil {
 				return nil, nil, nil, err
 			}
@@ -243,14 +248,17 @@ func (f *ruleFactory) createOnErrorPipeline(
 	for _, ehStep := range ehConfigs {
 		id, found := ehStep["error_handler"]
 		if found {
-			conf := getConfig(ehStep["config"])
+			mechanismID, conf, err := getIDAndConfig("error_handler", id, ehStep["config"])
+			if err != nil {
+				return nil, err
+			}
 
 			condition, err := getExecutionCondition(ehStep["if"])
 			if err != nil {
 				return nil, err
 			}
 
-			handler, err := f.hf.CreateErrorHandler(version, id.(string), conf)
+			handler, err := f.hf.CreateErrorHandler(version, mechanismID, conf)
 			if err != nil {
 				return nil, err
 			}
@@ -338,12 +346,36 @@ func createHandler[T subjectHandler](
 		return nil, err
 	}
 
-	handler, err := creteHandler(version, id.(string), getConfig(configMap["config"]))
+	mechanismID, mechanismConfig, err := getIDAndConfig(handlerType, id, configMap["config"])
+	if err != nil {
+		return nil, err
+	}
+
+	handler, err := creteHandler(version, mechanismID, mechanismConfig)
 	if err != nil {
 		return nil, err
 	}
 
 	return &conditionalSubjectHandler{h: handler, c: condition}, nil
+}
+
+// getIDAndConfig extracts the id of the referenced mechanism and its (optional) rule specific config.
+// Rule sets are just decoded from yaml/json. So, the values can be of any type.
+func getIDAndConfig(mechanismType string, id, conf any) (string, config.MechanismConfig, error) {
+	mechanismID, ok := id.(string)
+	if !ok {
+		return "", nil, errorchain.NewWithMessagef(heimdall.ErrConfiguration,
+			"unexpected type '%T' for the id of the referenced %s", id, mechanismType)
+	}
+
+	if conf != nil {
+		if _, ok = conf.(map[string]any); !ok {
+			return "", nil, errorchain.NewWithMessagef(heimdall.ErrConfiguration,
+				"unexpected type '%T' for the config of the %s '%s'", conf, mechanismType, mechanismID)
+		}
+	}
+
+	return mechanismID, getConfig(conf), nil
 }
 
 func getConfig(conf any) config.MechanismConfig {
